@@ -114,11 +114,19 @@ def _template_job():
     # function bodies that fold to the identity: the FunctionProto's output would be its input
     from harness import userfns as _U
 
-    for nm in ("fn_identity", "fn_transpose_pair", "fn_reshape_roundtrip", "fn_same_dtype_cast"):
+    bodies = {"fn_identity": [(2, 3)], "fn_transpose_pair": [(2, 3)], "fn_reshape_roundtrip": [(2, 3)], "fn_same_dtype_cast": [(2, 3)],
+              "fn_transpose_reduce": [(2, 3, 4)], "fn_first_of_two": [(2, 3), (2, 3)]}
+    for nm, fspecs in bodies.items():
         for kw in ({}, {"enable_double_precision": True}):
             rec = {"key": f"fnbody::{nm}::{json.dumps(kw, sort_keys=True)}", "status": "ok"}
             try:
-                m = jax2onnx.to_onnx(lambda x, f=getattr(_U, nm): f(x) + 1.0, [(2, 3)], **kw)
+                # the decorated function must be looked up as a module attribute AT CALL TIME (that is what is patched)
+                m = jax2onnx.to_onnx(lambda *a, _n=nm: getattr(_U, _n)(*a) + 1.0, fspecs, **kw)
+                if not m.functions:
+                    rec["status"] = "export_failed"
+                    rec["why"] = "harness: no function emitted"
+                    out.append(rec)
+                    continue
             except Exception as ex:  # noqa: BLE001
                 rec["status"] = "export_failed"
                 rec["why"] = f"{type(ex).__name__}: {str(ex)[:160]}"
